@@ -17,7 +17,7 @@ func init() { register(c07{}) }
 
 func (c07) ID() string { return "C07" }
 func (c07) Cases(t fw.Tier) int {
-	return tierN(t, 8000, 300000)
+	return tierN(t, 40000, 800000)
 }
 func (c07) Rule() string {
 	return "dedicated workload: 2020-12 schemas with unevaluatedProperties / unevaluatedItems (false, a type schema, nested) at the root and at nested nodes, combined with local evaluators " +
